@@ -25,6 +25,7 @@
 #include "object.h"
 #include "array.h"
 #include "event.h"
+#include "message.h"
 
 #include "vf.h"
 
@@ -614,6 +615,96 @@ static void random_lookup(vf_rng *r)
 	}
 }
 
+/* ------------------------------------------- ids derived from sizes/codes -- */
+/* class of a built-in scalar id: 1 signed integer, 2 unsigned integer, 3 floating, 0 other */
+static int scalar_class(int id)
+{
+	switch (id) {
+	case 'b': case 'n': case 'i': case 'x': return 1;
+	case 'y': case 'q': case 'u': case 't': return 2;
+	case 'f': case 'd': case 'e': return 3;
+	default: return 0;
+	}
+}
+/* id must be a built-in scalar id of the shadow table; returns its traits */
+static const MPT_STRUCT(type_traits) *builtin_scalar(const char *api, const char *what, long arg, int id)
+{
+	const MPT_STRUCT(type_traits) *t;
+	VF_CHECK(id > 0 && id <= IDMAX && MPT_type_isScalar(id) && tab[id].state == SPresent && tab[id].builtin && tab[id].kind == KScalar,
+	         what, "%s(0x%lx) returns id %d (0x%x), which is no built-in scalar type id (range 0x%x..0x%x)",
+	         api, arg, id, id, MPT_ENUM(_TypeScalarBase), MPT_ENUM(_TypeScalarMax));
+	vf_at("mpt_type_traits");
+	t = mpt_type_traits(id);
+	VF_CHECK(t, "model:type_traits:builtin-missing", "mpt_type_traits('%c') returns NULL (id from %s(0x%lx))", id, api, arg);
+	check_traits_content(id, t, api);
+	return t;
+}
+/*
+ * message value format codes (all 256) and byte sizes 0..17: every id derived
+ * from them is refused or is a built-in scalar type of exactly that size
+ */
+static void check_derived_ids(void)
+{
+	static const char ids[] = "bnixyqutfde";
+	const MPT_STRUCT(type_traits) *t;
+	int fmt, i;
+	size_t len;
+
+	for (fmt = 0; fmt < 0x100; fmt++) {
+		size_t size;
+		int id, cls;
+		vf_at("mpt_msgvalfmt_size");
+		size = mpt_msgvalfmt_size((uint8_t) fmt);
+		vf_at("mpt_msgvalfmt_typeid");
+		id = mpt_msgvalfmt_typeid((uint8_t) fmt);
+		vf_count("mpt_msgvalfmt_typeid", 1);
+		if (vf_logging) vf_log("msgvalfmt_typeid(0x%02x) -> %d, element size %zu", fmt, id, size);
+		if (id < 0) { vf_count("refused:msgvalfmt", 1); continue; }
+		t = builtin_scalar("mpt_msgvalfmt_typeid", "model:msgvalfmt_typeid:id-not-builtin-scalar", fmt, id);
+		VF_CHECK(t->size == size, "model:msgvalfmt_typeid:size", "mpt_msgvalfmt_typeid(0x%02x) = '%c' of size %zu, format element has %zu bytes", fmt, id, t->size, size);
+		cls = scalar_class(id);
+		switch (fmt & MPT_MESGVAL(Normal)) {
+		case MPT_MESGVAL(Integer):  VF_CHECK(cls == 1, "model:msgvalfmt_typeid:kind", "signed integer format 0x%02x maps to '%c'", fmt, id); break;
+		case MPT_MESGVAL(Unsigned): VF_CHECK(cls == 2, "model:msgvalfmt_typeid:kind", "unsigned integer format 0x%02x maps to '%c'", fmt, id); break;
+		case MPT_MESGVAL(Float):    VF_CHECK(cls == 3, "model:msgvalfmt_typeid:kind", "floating point format 0x%02x maps to '%c'", fmt, id); break;
+		default: vf_fail("model:msgvalfmt_typeid:kind", "big number format 0x%02x maps to '%c'", fmt, id);
+		}
+		vf_count("monitor:msgvalfmt-id-compared", 1);
+	}
+	/* built-in numeric id -> code -> id */
+	for (i = 0; ids[i]; i++) {
+		int code, back;
+		vf_at("mpt_msgvalfmt_code");
+		code = mpt_msgvalfmt_code(ids[i]);
+		vf_count("mpt_msgvalfmt_code", 1);
+		if (code < 0) { vf_count("observe:no-format-code-for-scalar", 1); continue; }
+		VF_CHECK(code <= 0xff, "model:msgvalfmt_code:outside-byte", "mpt_msgvalfmt_code('%c') = 0x%x", ids[i], code);
+		VF_CHECK(mpt_msgvalfmt_size((uint8_t) code) == tab[(int) ids[i]].size, "model:msgvalfmt_code:size",
+		         "mpt_msgvalfmt_code('%c') = 0x%02x with element size %zu, type has %zu", ids[i], code, mpt_msgvalfmt_size((uint8_t) code), tab[(int) ids[i]].size);
+		vf_at("mpt_msgvalfmt_typeid");
+		back = mpt_msgvalfmt_typeid((uint8_t) code);
+		VF_CHECK(back == ids[i], "model:msgvalfmt_code:round-trip", "mpt_msgvalfmt_code('%c') = 0x%02x, mpt_msgvalfmt_typeid(0x%02x) = %d", ids[i], code, code, back);
+		vf_count("monitor:msgvalfmt-round-trip", 1);
+	}
+	/* integer id for a byte size: none (0 / negative), or an integer type of that size and signedness */
+	for (len = 0; len <= 17; len++) {
+		int sgn;
+		for (sgn = 0; sgn < 2; sgn++) {
+			const char *api = sgn ? "mpt_type_int" : "mpt_type_uint";
+			int id;
+			vf_at(api);
+			id = sgn ? mpt_type_int(len) : mpt_type_uint(len);
+			vf_count(api, 1);
+			if (vf_logging) vf_log("%s(%zu) -> %d", api, len, id);
+			if (id <= 0) { vf_count("refused:type_int", 1); continue; }
+			t = builtin_scalar(api, "model:type_int:id-not-builtin-scalar", (long) len, id);
+			VF_CHECK(t->size == len, "model:type_int:size", "%s(%zu) = '%c' of size %zu", api, len, id, t->size);
+			VF_CHECK(scalar_class(id) == (sgn ? 1 : 2), "model:type_int:kind", "%s(%zu) = '%c'", api, len, id);
+			vf_count("monitor:type_int-compared", 1);
+		}
+	}
+}
+
 /* ----------------------------------------------------------------- cases -- */
 #define NB 24
 #define NX 12
@@ -654,7 +745,9 @@ static void case_builtin(uint64_t idx, vf_rng *r)
 		look_name(bn[k], -1, 0);
 		if (vf_chance(r, 1, 2)) look_name(bn[k], (int) strlen(bn[k]), 0);
 	}
+	if (idx & 1) check_derived_ids();   /* before any scalar lookup initialised the tables */
 	sweep("built-in");
+	check_derived_ids();
 	/* built-in ids by documented name */
 	{
 		static const struct { const char *n; int id; } want[] = {
@@ -742,6 +835,7 @@ static void case_exhaust(uint64_t idx, vf_rng *r)
 	}
 	for (i = 0; i < 60; i++) random_lookup(r);
 	sweep("end");
+	check_derived_ids();   /* with every dynamic id (0xc0..0xff) registered */
 	vf_nontrivial();
 	vf_sample("exhaustion %s: %d accepted registrations, then refused; full sweeps after refusal", desc, total);
 }
